@@ -491,3 +491,180 @@ func emptyRangeSeen(c *Check, fis []*FuncInfo) {
 		walk(fi.Decl.Body.List, nil)
 	}
 }
+
+// ---- C04.R12: a reject block answers with the reply it was configured with.
+// `reject 450 4.2.1 "Mailbox is busy"` names the three parts of the reply. In msgpipeline.parseRejectDirective each
+// part of the returned SMTPError is its default or what was parsed from the argument of that position – nothing
+// rewrites a part after it was parsed (C04O: `enchCode[0] = code / 100` placed where `code` still holds the default 554
+// turned every configured 4.x.x into 5.x.x).
+func c04RejectReplyAsConfigured(c *Check, rule string) {
+	c.Rule(rule, "msgpipeline.parseRejectDirective: every part of the reply (code, enhanced code, message) is its default or is parsed from the directive's argument; no store rewrites a part from anything else", 3)
+	r := c.need(rule, "internal/msgpipeline", "", "parseRejectDirective")
+	if r == nil {
+		return
+	}
+	info := r.Info
+	var nodeP types.Object
+	sig := r.FI.Obj.Type().(*types.Signature)
+	if sig.Params().Len() >= 1 {
+		nodeP = sig.Params().At(0)
+	}
+	// the variables that make up the returned literal
+	parts := map[types.Object]string{}
+	inspectNoLit(r.FI.Decl.Body, func(x ast.Node) bool {
+		cl, ok := x.(*ast.CompositeLit)
+		if !ok || !isSMTPErrorType(info.TypeOf(cl)) {
+			return true
+		}
+		for _, el := range cl.Elts {
+			if kv, ok := el.(*ast.KeyValueExpr); ok {
+				if o := objOf(info, kv.Value); o != nil && localIn(r.FI.Decl.Body, o) {
+					parts[o] = kv.Key.(*ast.Ident).Name
+				}
+			}
+		}
+		return true
+	})
+	if len(parts) < 3 || nodeP == nil {
+		c.Fail(rule, "parseRejectDirective:parts", r.FI.Decl.Pos(), "undecided: the returned reply is not built from three local variables")
+		return
+	}
+	n := map[string]int{}
+	inspectNoLit(r.FI.Decl.Body, func(x ast.Node) bool {
+		as, ok := x.(*ast.AssignStmt)
+		if !ok {
+			return true
+		}
+		for i, l := range as.Lhs {
+			root := ast.Unparen(l)
+			elem := false
+			if ix, isI := root.(*ast.IndexExpr); isI {
+				root, elem = ast.Unparen(ix.X), true
+			}
+			o := objOf(info, root)
+			name, is := parts[o]
+			if o == nil || !is {
+				continue
+			}
+			var rhs ast.Expr
+			if len(as.Rhs) == len(as.Lhs) {
+				rhs = as.Rhs[i]
+			} else if len(as.Rhs) == 1 {
+				rhs = as.Rhs[0]
+			}
+			n[name]++
+			ok := false
+			if rhs != nil && !elem {
+				if tv, has := info.Types[rhs]; has && tv.Value != nil {
+					ok = true // default
+				} else if _, isLit := ast.Unparen(rhs).(*ast.CompositeLit); isLit && as.Tok == token.DEFINE {
+					ok = true // default enhanced code
+				} else if mentions(info, rhs, nodeP) {
+					ok = true // parsed from / taken from the directive
+				}
+			}
+			c.Hold(rule, "parseRejectDirective:"+name+":store"+itoa(n[name]), as.Pos(), ok, "line "+itoa(p0(c.P, as.Pos()))+": "+exprStr(l)+" is set to "+exprStr(rhs)+", which is neither the default nor taken from the directive's arguments: the block answers with something other than its configured reply (e.g. `reject 450 4.2.1` answered `450 5.2.1`)")
+		}
+		return true
+	})
+}
+
+// ---- C04.R13: every address a rewrite produced is handed on.
+// A modifier's RewriteRcpt answers with the list of addresses the recipient becomes; the pipeline routes each of them.
+// A loop that copies a list of addresses into the list that is returned copies every element: an iteration that ends
+// without the copy (a filter, a "seen before" test) accepts the recipient at RCPT TO and hands one of its addresses
+// to no target (C04P: an alias that includes its own name – `team: team, archive` – lost the `team` mailbox because
+// the duplicate filter was seeded with the address being rewritten).
+func c04RewriteKeepsEveryResult(c *Check, rule string) {
+	c.Rule(rule, "internal/modify: a loop that copies a list of addresses into the list a rewrite returns copies every element – no iteration ends without the copy (an address that is dropped is accepted and delivered nowhere)", 1)
+	p := c.P
+	pk := p.Pkg("internal/modify")
+	if pk == nil {
+		c.Fail(rule, "package", token.NoPos, "anchor unresolved")
+		return
+	}
+	n := 0
+	p.AllFuncs([]*packagesPkg{pk}, func(fi *FuncInfo) {
+		if fi.Decl.Body == nil || strings.HasSuffix(p.Fset.Position(fi.Decl.Pos()).Filename, "_test.go") {
+			return
+		}
+		sig := fi.Obj.Type().(*types.Signature)
+		returnsList := false
+		for i := 0; i < sig.Results().Len(); i++ {
+			if sl, ok := sig.Results().At(i).Type().Underlying().(*types.Slice); ok && isStringType(sl.Elem()) {
+				returnsList = true
+			}
+		}
+		if !returnsList {
+			return
+		}
+		info := fi.Info()
+		fl := p.FlowOfFunc(fi)
+		// the lists that are returned
+		returned := map[types.Object]bool{}
+		inspectNoLit(fi.Decl.Body, func(x ast.Node) bool {
+			if ret, ok := x.(*ast.ReturnStmt); ok {
+				for _, e := range ret.Results {
+					if o := objOf(info, e); o != nil {
+						returned[o] = true
+					}
+				}
+			}
+			return true
+		})
+		loops := elemLoops(info, fi.Decl.Body, func(e ast.Expr) bool {
+			t := info.TypeOf(e)
+			if t == nil {
+				return false
+			}
+			sl, ok := t.Underlying().(*types.Slice)
+			return ok && isStringType(sl.Elem())
+		})
+		for li, l := range loops {
+			if !directlyIn(fi.Decl.Body, l.Body) {
+				continue
+			}
+			elem := l.ElemObj()
+			isCopy := func(pt Pt) bool {
+				as, ok := pt.Node().(*ast.AssignStmt)
+				if !ok {
+					return false
+				}
+				for i, lh := range as.Lhs {
+					if i >= len(as.Rhs) {
+						break
+					}
+					if o, args := appendTarget(info, lh, as.Rhs[i]); o != nil && returned[o] {
+						for _, a := range args {
+							if l.IsElem(a) || (elem != nil && mentions(info, a, elem)) {
+								return true
+							}
+						}
+					}
+					if ix, isI := ast.Unparen(lh).(*ast.IndexExpr); isI {
+						if o := objOf(info, ix.X); o != nil && returned[o] && (l.IsElem(as.Rhs[i]) || (elem != nil && mentions(info, as.Rhs[i], elem))) {
+							return true
+						}
+					}
+				}
+				return false
+			}
+			has := false
+			for _, pt := range fl.Points() {
+				if pt.Node() != nil && within(l.Body, pt.Node()) && isCopy(pt) {
+					has = true
+				}
+			}
+			if !has {
+				continue
+			}
+			n++
+			c.SawFunc(fi.Name())
+			iterEnd := fl.IterEnd(l)
+			// a return inside the loop refuses the whole rewrite (an invalid replacement): not a dropped element
+			path, found := fl.Reach(Query{From: fl.LoopBodyStart(l), Inclusive: true, Target: func(q Pt) bool { return iterEnd(q) && !fl.IsExitPt(q) }, Avoid: isCopy})
+			c.Hold(rule, fi.Name()+":loop"+itoa(li+1), l.Body.Pos(), !found, "an element of "+exprStr(l.List)+" can pass the loop without being copied into the returned list ("+fl.Describe(path)+"): the address is produced by the rewrite and then dropped – the recipient is accepted, that address reaches no target")
+		}
+	})
+	c.Hold(rule, "loops-seen", token.NoPos, true, itoa(n))
+}
